@@ -38,6 +38,7 @@ import (
 	"sort"
 	"strconv"
 	"strings"
+	"unicode/utf8"
 
 	"verif/harness/core"
 	"verif/harness/sx"
@@ -178,6 +179,7 @@ func parseName(e sx.Sexp) nameT {
 	must(e.Tag() == "n" && len(a) == 3 && !a[0].IsList && !a[2].IsList, "name")
 	b, err := a[1].AsBytes()
 	must(err == nil, "name hex")
+	must(utf8.Valid(b), "name is not valid UTF-8") // strings.ToLower replaces invalid bytes by U+FFFD: outside the model
 	must(a[2].Atom == "r" || a[2].Atom == "o", "authority")
 	auth := string(px.RuntimeNameAuthority)
 	if a[2].Atom == "o" {
@@ -306,7 +308,7 @@ func parseLine(args []sx.Sexp) (parent []int, forked []bool, steps []stepT, deps
 		case "add":
 			must(len(a) == 3, "step arity")
 			b, err := a[1].AsBytes()
-			must(err == nil, "add hex")
+			must(err == nil && utf8.Valid(b), "add hex")
 			n, err := a[2].AsInt()
 			must(err == nil && n >= 0, "add int")
 			st.name = nameT{ns: "type", name: string(b), auth: string(px.RuntimeNameAuthority)}
@@ -369,6 +371,9 @@ func classify(e interface{}) string {
 func exec(c px.Context, op string, args []sx.Sexp) (res core.Result) {
 	if op == "tsadd" {
 		return execTsAdd(c, args)
+	}
+	if op == "tn" {
+		return execTn(args)
 	}
 	if op != "hist" {
 		return core.Result{Out: "bad-op", Pred: "n/a"}
@@ -958,6 +963,8 @@ func gen(g *core.G) {
 	}
 
 	genDep(g, maxLen)
+	genCase(g)
+	genKey(g)
 
 	// 2. random histories of length 40 (every third one: 3..8) over random trees of depth <= 3
 	r := g.Rng
@@ -1033,6 +1040,18 @@ func gen(g *core.G) {
 		for j := range local {
 			local[j] = names[r.Intn(len(names))]
 		}
+		if !tsLeaf && r.Intn(3) == 0 {
+			local[r.Intn(k)] = nm("Type", core.Pick(r, []string{"a", "A", "b"}), "r") // the namespace folds too
+		}
+		if !tsLeaf && r.Intn(4) == 0 {
+			// letters outside ASCII: É/é, the Kelvin sign (lower case: the ASCII k), İ (lower case: the ASCII i), ǅ (title
+			// case), Ⱥ (its lower case is longer in UTF-8)
+			for j := 0; j < k; j++ {
+				if r.Intn(2) == 0 {
+					local[j] = nm("type", core.Pick(r, caseNames), "r")
+				}
+			}
+		}
 		if static {
 			local[0] = core.Pick(r, []string{nm("type", "Integer", "r"), nm("type", "integer", "r"), nm("type", "::INTEGER", "r")})
 		}
@@ -1081,6 +1100,7 @@ func gen(g *core.G) {
 
 	// 3. malformed stream
 	for _, l := range []string{
+		"hist (tree (p -1)) (steps (load 0 (n type xc3 r)))", "hist (tree (p -1)) (steps (add 0 xff 1))",
 		"hist (tree) (steps)", "hist (tree (p 0)) (steps)", "hist (tree (f -1)) (steps)", "hist (tree (p -1)) (steps (load 1 " + names[0] + "))",
 		"hist (tree (p -1)) (steps (frob 0))", "hist (tree (p -1))", "nop", "hist (tree (p -1)) (steps (def 0 " + names[0] + " (q 1)))",
 		"hist (tree (p -1)) (steps (disc 0 none))", "hist (tree (p -1)) (steps (load 0 (n type zz r)))",
